@@ -24,16 +24,17 @@ static void run_poly(int l, int bg, int N, const std::vector<uint32_t>& vals) {
     }
     delete_IntPolynomial_array(l, dec); delete_TorusPolynomial(pol); delete_TGswParams(gp); delete_TLweParams(tp);
 }
-static void run_tlwe(int l, int bg, int N, int k, VhRng& rng, const std::vector<uint32_t>& vals) {
+static void run_tlwe(int l, int bg, int N, int k, VhRng& rng, const std::vector<uint32_t>& vals, int zero_mask = 0) {
     TLweParams* tp = new_TLweParams(N, k, 0., 1.);
     TGswParams* gp = new_TGswParams(l, bg, tp);
     TLweSample* s = new_TLweSample(tp);
     IntPolynomial* dec = new_IntPolynomial_array((k + 1) * l, N);
     std::vector<std::vector<uint32_t> > in(k + 1, std::vector<uint32_t>(N));
     for (int c = 0; c <= k; c++) for (int j = 0; j < N; j++) {
-        in[c][j] = (rng.below(4) == 0 && !vals.empty()) ? vals[rng.below(vals.size())] : rng.u32();
+        in[c][j] = ((zero_mask >> c) & 1) ? 0u : (rng.below(4) == 0 && !vals.empty()) ? vals[rng.below(vals.size())] : rng.u32();      // zero_mask: identically zero polynomials (trivial / partly trivial samples)
         s->a[c].coefsT[j] = (Torus32)in[c][j];
     }
+    for (int q = 0; q < (k + 1) * l; q++) for (int j = 0; j < N; j++) dec[q].coefs[j] = 0x5A5A5A5A;       // whatever the output buffer held before must not survive
     tGswTLweDecompH(dec, s, gp);
     for (int c = 0; c <= k; c++) rows("tlwe", l, bg, N, c, in[c], &s->a[c], dec + c * l);
     delete_IntPolynomial_array((k + 1) * l, dec); delete_TLweSample(s); delete_TGswParams(gp); delete_TLweParams(tp);
@@ -71,7 +72,8 @@ int main(int argc, char** argv) {
         run_poly(l, bg, 8, std::vector<uint32_t>(v.begin(), v.begin() + (v.size() < 64 ? v.size() : 64)));
         run_poly(l, bg, 16, std::vector<uint32_t>(v.begin(), v.begin() + (v.size() < 64 ? v.size() : 64)));
         run_poly(l, bg, 64, std::vector<uint32_t>(v.begin(), v.begin() + (v.size() < 128 ? v.size() : 128)));
-        for (int k = 1; k <= 2; k++) { run_tlwe(l, bg, 1024, k, rng, v); run_tlwe(l, bg, 16, k, rng, v); }
+        for (int k = 1; k <= 2; k++) { run_tlwe(l, bg, 1024, k, rng, v); run_tlwe(l, bg, 16, k, rng, v);
+            for (int zm = 1; zm < (1 << (k + 1)); zm++) run_tlwe(l, bg, 16, k, rng, v, zm); }       // every pattern of identically zero polynomials
     } else if (!strcmp(mode, "seq")) {        // histories: many layouts back to back in ONE process, then again in reverse order (a cache keyed by too little shows here)
         std::vector<long> ls = vh_list(vh_sarg(argc, argv, "--ls", "3,2")), bgs = vh_list(vh_sarg(argc, argv, "--bgs", "7,10"));
         long nr = vh_arg(argc, argv, "--rand", 64);
